@@ -64,16 +64,21 @@ PROPS["C05"] = {
     "technique": "property-based testing with a possible-state (may) reference model and an independent byte-level wire decoder as oracle",
     "level_text": "Generated record/build histories (4 000 quick / ~300 000 thorough, <= 300 steps each) on the exported twcc.Recorder are judged by a "
                   "possible-state model of what the statement allows the recorder to hold, and every emitted packet is re-decoded from its bytes by a decoder "
-                  "written from the draft; an end-to-end property applies the wire-form rules to what the sender interceptor writes. Exploration.",
+                  "written from the draft; an end-to-end property drives the real twcc.SenderInterceptor (real ticker and clock, several streams sharing one counter) and judges every "
+                  "written feedback from its bytes: wire form, no invented arrivals, arrival times bracketed by the wall-clock instants of the Read calls, 'not received' only for numbers "
+                  "whose Read had not returned when the feedback was written, completeness, counter +1 per packet. Exploration.",
     "level_note": "trusts: the may-model (forgetting is allowed exactly for arrivals >= 500 ms older than a later recorded arrival or > 2^15-1 behind the newest "
                   "number); arrival times >= 0; sequence unwrapping is taken from the library (verified exhaustively by C20)",
     "assumptions": ["arrival times are non-negative (the interceptor feeds time since start)",
-                    "the 16-bit base of a feedback is located as the congruent unwrapped number in (newest-65536, newest]"],
+                    "the 16-bit base of a feedback is located as the congruent unwrapped number in (newest-65536, newest]",
+                    "end-to-end cases deliver the first packet first (the unwrapper does not go below its first number, C20) and last far less than the 500 ms history; a case stretched beyond 300 ms by a loaded machine is not judged for completeness"],
     "quick": [
         {"test": "^TestRecorderFeedback$", "checks": 4000, "timeout": 400},
+        {"test": "^TestSenderInterceptorFeedback$", "checks": 100, "shards": 4, "timeout": 400},
     ],
     "thorough": [
         {"test": "^TestRecorderFeedback$", "checks": 20000, "shards": 15, "timeout": 1200},
+        {"test": "^TestSenderInterceptorFeedback$", "checks": 2500, "shards": 12, "timeout": 1200},
     ],
 }
 
